@@ -363,7 +363,11 @@ func c19BmpWorldStart(t *testing.T, o *vOut, r *vRand, policy api.AddBmpRequest_
 		n := n
 		// the FSM goroutine of the (admin-down) neighbour must have entered its idle wait before the
 		// state variable is overwritten below
-		time.Sleep(40 * time.Millisecond)
+		var started *peer
+		_ = s.mgmtOperation(func() error { started = s.neighborMap[n.addr]; return nil }, false)
+		if started == nil || !vAwaitFSMIdle(started) {
+			t.Fatalf("the FSM goroutine of %s did not reach idle()", n.addr)
+		}
 		// what an ESTABLISHED session leaves behind
 		if err := s.mgmtOperation(func() error {
 			p := s.neighborMap[n.addr]
